@@ -506,6 +506,8 @@ def run_c10(chk):
         return [1, '200 OK', sorted([['Content-Length', None], ['Content-Type', 'text/html; charset=UTF-8'],
                                      ['Set-Cookie', 'outer=OUT'], ['X-Outer', 'OUT']]), None]
 
+    config_churn_pass = [0]
+
     def run_arr(arr, sched, nthreads=1):
         a, b = fresh_apps()
         reqs, apps, expect = [], [], []
@@ -651,19 +653,42 @@ def run_c10(chk):
             import gc
 
             def churn():
-                for _i in range(25):
-                    x = L.make_app({'max_body_size': 5, 'max_memfile_size': 3})
+                # all of them alive at once, then all dropped at once: their configuration objects leave a batch of free blocks
+                xs = [L.make_app({'max_body_size': 5, 'max_memfile_size': 3}) for _i in range(25)]
+                for x in xs:
                     L.serve(x, L.environ_for('plain', 'Z'))
                 x = None
+                del xs[:]
                 gc.collect()
                 return 'churned'
 
-            def fresh_serve(k, n):
+            def fresh_serve(k, n, e):
                 # (configured, but with limits no request here comes near: the answers are those of the default configuration)
-                return L.serve(L.make_app({'max_body_size': 50000 + len(n), 'max_memfile_size': 20000}), L.environ_for(k, n))
-            seq = [churn, (lambda: fresh_serve('body', 'C1')), churn, (lambda: fresh_serve('form', 'C2')), (lambda: fresh_serve('bigbody', 'C3')),
-                   churn, (lambda: fresh_serve('body', 'C4')), (lambda: fresh_serve('mprep', 'C5'))]
-            expect = ['churned', solo('body', 'C1'), 'churned', solo('form', 'C2'), solo('bigbody', 'C3'), 'churned', solo('body', 'C4'), solo('mprep', 'C5')]
+                # a batch of applications alive at the same time, so that their configuration objects settle in whatever
+                # blocks the dropped ones left; each serves the request, every answer must be the solo answer
+                ys = [L.make_app({'max_body_size': 50000 + len(n), 'max_memfile_size': 20000}) for _i in range(30)]
+                got = [L.serve(y, L.environ_for(k, n)) for y in ys]
+                if os.environ.get('VERIF_DEBUG_CHURN'):
+                    print('CHURN', k, n, eager and (eager.handed, eager.reused), sum(1 for g in got if g != e), str(got[0])[:150], flush=True)
+                return next((g for g in got if g != e), e)
+            plan = [None, ('body', 'C1'), None, ('form', 'C2'), ('bigbody', 'C3'), None, ('body', 'C4'), ('mprep', 'C5')]
+            expect = ['churned' if q is None else solo(*q) for q in plan]
+            # the second pass of this arrangement runs with the environment choosing addresses eagerly (L.EagerIds): whatever the
+            # code keeps under id(x) meets another object under the same id as soon as x is gone
+            eager = L.EagerIds() if config_churn_pass[0] else None
+            config_churn_pass[0] += 1
+
+            def with_ids(f):
+                def g():
+                    if eager is None:
+                        return f()
+                    eager.install()
+                    try:
+                        return f()
+                    finally:
+                        eager.remove()
+                return g
+            seq = [with_ids(churn) if q is None else with_ids(lambda q=q, e=e: fresh_serve(q[0], q[1], e)) for q, e in zip(plan, expect)]
             reqs, apps = [seq], [a]
             flat = True
         elif arr == 'module_helpers':
@@ -736,7 +761,9 @@ def run_c10(chk):
             flat = None
         else:
             raise core.MachineryError(arr)
-        res, tr, taken = L.run_threads(apps, reqs, sched, acc if acc.ok else None)
+        # (config_churn runs without the accessor recorder: the recorder keeps every object it has seen alive, and this
+        # arrangement is about what happens once applications are gone)
+        res, tr, taken = L.run_threads(apps, reqs, sched, acc if acc.ok and arr != 'config_churn' else None)
         ok = []
         if arr in ('alternate', 'create_between', 'listener', 'status_table', 'shared_environ', 'custom_errors_map', 'custom404', 'module_helpers', 'config_churn'):
             ok = [expect[i] is None or (expect[i](res[0][i]) if callable(expect[i]) else res[0][i] == expect[i]) for i in range(len(expect))]
